@@ -65,10 +65,9 @@ def run_one(d):
             out['error'] = 'program: %r' % e
             return out
         for p in PROPS:
-            mod = importlib.import_module('sa.rules.' + p.lower())
-            ctx = report.Context(p, P, 'quick')
             try:
-                mod.run(ctx)
+                from sa.check import run_property
+                ctx, mod = run_property(p, 'quick', P=P, quiet=True)     # same policy as the registered command (AE with findings in hand)
                 fs = [f for f in ctx.findings() if report.match_known(f, known) is None]
                 if fs:
                     res[p] = ['%s %s @%s' % (f.rule, f.construct, f.loc) for f in fs][:4]
